@@ -63,6 +63,10 @@ def generate(rs: int, tier: str, index: int) -> dict:
             t = ch.below(len(lit["coefficients"]))
             lit["coefficients"][t][j] = lit["coefficients"][t][j] + 1
     step: Dict[str, Any] = {"id": 0, "k": kind, "p": lit, "graded": ch.chance(0.5), "reverse": ch.chance(0.5)}
+    if kind in ("lead", "proxy", "extreme", "queries") and ch.chance(0.3):
+        step["mutate"] = True  # history on the same object: query, overwrite the coefficients in place, query again
+    if kind in ("lead", "proxy", "extreme") and ch.chance(0.3):
+        step["primer"] = True  # an earlier query on a different polynomial whose exponent matrix holds the same numbers in another width
     if ch.chance(0.35):  # the queries say nothing about the retain options: they must hold under any of them
         step["options"] = {"retain_names": ch.chance(0.4), "retain_coefficients": ch.chance(0.5)}
     if kind == "extreme":
@@ -134,7 +138,21 @@ class Runner:
                 tag = f"{pol}/{fill}"
                 try:
                     with numpoly.global_options(**step.get("options", {})):
+                        if step.get("primer"):
+                            self._primer(step, kind, g, r, tag, numpoly)
                         fp = self.check(kind, step, p, names, els, nv, g, r, tag, numpoly)
+                        if step.get("mutate") and p.size:
+                            # the same object again, after its coefficients were overwritten in place
+                            vals = p.values
+                            for key, exp in zip(p.keys, numpy.asarray(p.exponents).tolist()):
+                                if kind == "queries":
+                                    if any(exp):
+                                        vals[key] = 0 if fp == "False" else 1
+                                else:
+                                    vals[key] = -vals[key]
+                            self.bump("probe:requery_after_inplace_update")
+                            names, els = model.elements(p)
+                            fp = fp + "|" + self.check(kind, step, p, names, els, nv, g, r, tag + "/after-update", numpoly)
                 except core.Violation as exc:
                     self.violate(exc.clause, exc.op if exc.op != "accessors" else kind, sid, f"[{tag}] {exc.detail}")
                     fp = "violation"
@@ -294,6 +312,30 @@ class Runner:
                 self.violate("tonumpy", "tonumpy", sid, f"[{tag}] got {arr!r}")
             return str(numpy.asarray(arr).tolist())
         raise core.HarnessError(kind)
+
+    def _primer(self, step: dict, kind: str, g: bool, r: bool, tag: str, numpoly: Any) -> None:
+        """The same query, earlier in the process, on a polynomial whose exponent matrix has the same
+        numbers in another width (a cache keyed on the exponent bytes alone would confuse the two)."""
+        lit = step["p"]
+        flat = [v for row in lit["exponents"] for v in row]
+        nv = len(lit["names"])
+        width = 1 if nv > 1 else 2
+        if len(flat) % width:
+            flat = flat + [0]
+        rows = []
+        for i in range(0, len(flat), width):
+            row = flat[i:i + width]
+            if row not in rows:
+                rows.append(row)
+        pl = {"names": ["q0", "q1"][:width], "shape": [2], "dtype": "int64", "exponents": rows,
+              "coefficients": [[i + 1, -(i + 1)] for i in range(len(rows))], "retain": True}
+        try:
+            q = model.build_poly(pl)
+        except core.Undecided:
+            return
+        qnames, qels = model.elements(q)
+        self.bump("probe:primer_with_same_exponent_numbers")
+        self.check(kind, dict(step, p=pl), q, qnames, qels, len(qnames), g, r, tag + "/primer", numpoly)
 
     @staticmethod
     def _el_equal(x: dict, y: dict) -> bool:
